@@ -7,7 +7,8 @@ use crate::ws::r2;
 
 pub struct C13;
 
-pub const FAULTS: [&str; 12] = [
+pub const FAULTS: [&str; 13] = [
+    "required-argument-missing-before-named",
     "undefined-field",
     "undefined-class",
     "undefined-multiclass",
@@ -93,6 +94,15 @@ fn pick_edit(p: &crate::gen::sem::Program, class: &str, pick: usize) -> Option<E
             let r = c.get(pick % c.len().max(1))?;
             let ar = r.args_range?;
             Some(Edit { file: r.file, range: ar, text: String::new(), site: (r.name_range.0, ar.0), what: "argument list with a required template argument removed".into() })
+        }
+        "required-argument-missing-before-named" => {
+            // `K<1, p3 = 5>` -> `K<p3 = 5>`: the positional arguments go, the named ones stay
+            let c: Vec<_> = p.classrefs.iter().filter(|r| r.required >= 1 && !r.positional.is_empty() && r.first_named.is_some() && r.args_range.is_some()).collect();
+            let r = c.get(pick % c.len().max(1))?;
+            let ar = r.args_range?;
+            let fnamed = r.first_named?;
+            let removed = fnamed - (ar.0 + 1);
+            Some(Edit { file: r.file, range: (ar.0 + 1, fnamed), text: String::new(), site: (r.name_range.0, ar.1 - removed), what: "required positional template arguments removed, named arguments kept".into() })
         }
         "surplus-template-argument" => {
             let c: Vec<_> = p.classrefs.iter().filter(|r| r.positional.len() == r.params).collect();
